@@ -293,6 +293,11 @@ End Model.
 Definition dial_fail_m3 (s : st) : st :=
   mkSt false None (ngen s) (gens s) (sendQ s) (failQ s) (hist s) (atts s) (lenq s) (lpc s) (lsrv s) (ldial s) (log s).
 
+(* the variant seeded as C11-m11: connection.close tests `conn == c.conn` BEFORE it takes the lock and sets the flag
+   after it; the decision [close_decide_m11] is taken in one state, [close_commit_m11] acts on a later one *)
+Definition close_decide_m11 (s : st) (g : nat) : bool := is_cur s g.
+Definition close_commit_m11 (s : st) (g : nat) : st := w_gen (w_closedF s true) g (set_dead (gens s g)).
+
 (* labels that belong to the harness/peer/callers rather than to the client's goroutines *)
 Definition internal (l : label) : bool :=
   match l with
